@@ -1,7 +1,7 @@
 #!/bin/bash
 # usage: confirm_seed.sh Cxx   -- confirm the seeded changes delivered in /tmp/seed_Cxx/seed_out/<k>/ in a FRESH scratch worktree,
 # keep the confirmed ones as /verif/seeded/Cxx-<k>/ and remove the sub-agent's worktree.
-id="$1"; W=/tmp/seed_$id; C=/tmp/confirm_$id
+id="$1"; round="${2:-1}"; if [ "$round" = 1 ]; then W=/tmp/seed_$id; off=0; else W=/tmp/seed${round}_$id; off=$(( (round-1)*2 )); fi; C=/tmp/confirm_$id
 TESTS="test/ad_topology_test.py test/attribute_collector_test.py test/catalog_test.py test/delegation_label_test.py test/maintenance_test.py test/networkxx_pg_disjoint_test.py test/networkxx_pg_test.py test/pluggable_test.py test/sliver_json_test.py test/sliver_test.py test/substrate_topology_test.py test/test_load.py test/tuple_test.py"
 git -C /repo worktree add --detach -q $C HEAD 2>/dev/null
 for k in $(ls $W/seed_out 2>/dev/null); do
@@ -18,7 +18,7 @@ for k in $(ls $W/seed_out 2>/dev/null); do
   (cd $C && git checkout -q -- . && git clean -fdq)
   echo "$id-$k: head_rc=$head_rc mut_rc=$mut_rc other_test_failures=$nfail passed=$npass"
   if [ "$head_rc" = 0 ] && [ "$mut_rc" != 0 ] && [ "$nfail" = 0 ] && [ "$npass" = 77 ]; then
-    o=/verif/seeded/$id-$k; mkdir -p $o; cp $d/patch.diff $d/demo.py $o/
+    o=/verif/seeded/$id-$((k+off)); mkdir -p $o; cp $d/patch.diff $d/demo.py $o/
     python3 - "$d/meta.json" "$o/meta.json" "$id" "$head_out" "$mut_out" <<'PY'
 import json,sys
 try: m=json.load(open(sys.argv[1]))
